@@ -467,11 +467,44 @@ def run_shard(shard):
                 acc.c["nontrivial"] += 1
                 check_interval_shapes(acc, mods, fa, fb)
         acc.sample({"interval_spellings": "2020-01-01T10:00:00.500000Z/2020-01-01T12:00:30Z"})
+        check_offset_sweep(acc, mods)
     return acc.result()
+
+
+def check_offset_sweep(acc, mods):
+    """Intervals whose endpoints are written with an explicit offset, for EVERY quarter-hour offset from -15:45 to +15:45, first
+    in ascending then in descending order within one process: each endpoint carries the offset it was written with (whatever
+    offsets were parsed before it), and a month is added on that wall clock."""
+    pendulum, fns = mods
+    offs = [q * 900 for q in range(-63, 64)]
+    for oname, order in (("ascending", offs), ("descending", list(reversed(offs))), ("ascending-again", offs)):
+        for off in order:
+            sg = "-" if off < 0 else "+"
+            ot = "%s%02d:%02d" % (sg, abs(off) // 3600, abs(off) // 60 % 60)
+            for text, ws, we in ((f"2021-03-31T10:00:00{ot}/P1M", (2021, 3, 31, 10, 0, 0, 0), (2021, 4, 30, 10, 0, 0, 0)),
+                                 (f"P1M/2021-03-31T01:00:00{ot}", (2021, 2, 28, 1, 0, 0, 0), (2021, 3, 31, 1, 0, 0, 0)),
+                                 (f"2021-03-31T10:00:00{ot}/2021-04-01T09:00:00{ot}", (2021, 3, 31, 10, 0, 0, 0), (2021, 4, 1, 9, 0, 0, 0))):
+                acc.c["evaluations"] += 1
+                acc.c["transitions"] += 1
+                try:
+                    r = pendulum.parse(text)
+                    got = [type(r).__name__, list(obs.fields(r.start)), obs.offset_s(r.start), list(obs.fields(r.end)), obs.offset_s(r.end)]
+                except ValueError:
+                    got = ["ValueError"]
+                except Exception as e:  # noqa: BLE001
+                    got = [f"raises {type(e).__name__}"]
+                want = ["Interval", list(ws), off, list(we), off]
+                if got != want:
+                    acc.mismatch("interval", f"explicit-offset-sweep/{oname}", {"kind": "offsweep", "s": text, "order": oname}, got, want)
+    acc.c["states"] += len(offs)
+    acc.c["nontrivial"] += len(offs)
 
 
 def replay_case(case, acc):
     mods = _mods()
+    if case["kind"] == "offsweep":
+        check_offset_sweep(acc, mods)
+        return
     if case["kind"] == "dur":
         check_duration(acc, mods, [tuple(c) for c in case["comps"]], tuple(case["frac"]) if case["frac"] else None, "replay")
         # signatures carry the original kind: re-run under each kind label
